@@ -81,7 +81,7 @@ def rand_event(rng, fmt, rollover=False):
 def run(tier, seed):
     rng = random.Random(seed)
     T = Tally(max_fail=8)
-    reps = 40 if tier == 'quick' else 600
+    reps = 40 if tier == 'quick' else 3000
     # directed minimal records first (the tally keeps the first failures); coordinates exact in float32
     loc = {'lon': '13.0', 'lat': '42.5', 'depth': '10.0', 'mag': '3.5'}
     T.run('catalog_reader', {'fmt': 'zmap', 'events': [dict(loc, t=[2011, 3, 11, 5, 46, '24']), dict(loc, t=[2011, 3, 11, 6, 15, '40'])]},
